@@ -671,7 +671,7 @@ def main():
     for b in gen.seed_history("c15_cross"): eng.apply(w, b)
     eng.apply(w, [["RenameColumn", "R", "rate", "q"]])
     explore.explore(rep, "checks.C15", "C15Monitor", n_quick=600, n_thorough=8000,
-                    budget_quick_s=50, budget_thorough_s=800)
+                    budget_quick_s=45, budget_thorough_s=800)
     for f in os.listdir(d):
       with open(os.path.join(d, f)) as fh:
         for k, v in json.load(fh).items(): tot[k] += v
